@@ -2,6 +2,7 @@ package otto
 
 import (
 	"bytes"
+	"math"
 	"regexp"
 	"strconv"
 	"strings"
@@ -74,71 +75,54 @@ func builtinStringConcat(call FunctionCall) Value {
 	return stringValue(value.String())
 }
 
-func lastIndexRune(s, substr string) int {
-	if i := strings.LastIndex(s, substr); i >= 0 {
-		return utf16Length(s[:i])
-	}
-	return -1
-}
-
-func indexRune(s, substr string) int {
-	if i := strings.Index(s, substr); i >= 0 {
-		return utf16Length(s[:i])
-	}
-	return -1
-}
-
 func utf16Length(s string) int {
 	return len(utf16.Encode([]rune(s)))
 }
 
+// indexUnits returns the first (or, scanning downwards from from, the last)
+// index k at which target occurs in value, both UTF-16 code unit sequences.
+func indexUnits(value, target []uint16, from int, last bool) int {
+	maxK, step := len(value)-len(target), 1
+	if last {
+		step = -1
+		if from > maxK {
+			from = maxK
+		}
+	}
+	for k := from; k >= 0 && k <= maxK; k += step {
+		j := 0
+		for j < len(target) && value[k+j] == target[j] {
+			j++
+		}
+		if j == len(target) {
+			return k
+		}
+	}
+	return -1
+}
+
 func builtinStringIndexOf(call FunctionCall) Value {
 	checkObjectCoercible(call.runtime, call.This)
-	value := call.This.string()
-	target := call.Argument(0).string()
-	if 2 > len(call.ArgumentList) {
-		return intValue(indexRune(value, target))
+	value := utf16.Encode([]rune(call.This.string()))
+	target := utf16.Encode([]rune(call.Argument(0).string()))
+	// 15.5.4.7: start = min(max(ToInteger(position), 0), len), in code units.
+	pos, start := toIntegerFloat(call.Argument(1)), len(value)
+	if pos < float64(len(value)) {
+		start = int(math.Max(pos, 0))
 	}
-	start := toIntegerFloat(call.Argument(1))
-	if 0 > start {
-		start = 0
-	} else if start >= float64(len(value)) {
-		if target == "" {
-			return intValue(len(value))
-		}
-		return intValue(-1)
-	}
-	index := indexRune(value[int(start):], target)
-	if index >= 0 {
-		index += int(start)
-	}
-	return intValue(index)
+	return intValue(indexUnits(value, target, start, false))
 }
 
 func builtinStringLastIndexOf(call FunctionCall) Value {
 	checkObjectCoercible(call.runtime, call.This)
-	value := call.This.string()
-	target := call.Argument(0).string()
-	if 2 > len(call.ArgumentList) || call.ArgumentList[1].IsUndefined() {
-		return intValue(lastIndexRune(value, target))
+	value := utf16.Encode([]rune(call.This.string()))
+	target := utf16.Encode([]rune(call.Argument(0).string()))
+	// 15.5.4.8: NaN means +Infinity; start = min(max(ToInteger(pos), 0), len).
+	pos, start := call.Argument(1).float64(), len(value)
+	if !math.IsNaN(pos) && pos < float64(len(value)) {
+		start = int(math.Max(pos, 0))
 	}
-	length := len(value)
-	if length == 0 {
-		return intValue(lastIndexRune(value, target))
-	}
-	start := call.ArgumentList[1].number()
-	if start.kind == numberInfinity { // FIXME
-		// startNumber is infinity, so start is the end of string (start = length)
-		return intValue(lastIndexRune(value, target))
-	}
-	if 0 > start.int64 {
-		start.int64 = 0
-	}
-	end := int(start.int64) + len(target)
-	if end > length {
-		end = length
-	}
-	return intValue(lastIndexRune(value[:end], target))
+	return intValue(indexUnits(value, target, start, true))
 }
 
 func builtinStringMatch(call FunctionCall) Value {
